@@ -79,7 +79,7 @@ def run(chk: harness.Check):
         "is edge-dominated by the flag-set outcome of a test of its own flag — through if/early-return/&&, bool::then closures and "
         "call sites; (D2) the set of control-relevant reads of an Extensions value equals the reviewed table; (D3) Extensions "
         "arguments handed to PullParser::new / parse_events / BlockParser::new come from the configured field, never from a constant; "
-        "(D4) flag constants have the documented bit layout; (D8) nothing that parse_advanced_quantity runs builds a Value::Text, so a quantity whose value is not numeric keeps the core reading in every subset. Necessary conditions only: parse results are not decided.")
+        "(D4) flag constants have the documented bit layout; (D8) nothing that parse_advanced_quantity runs builds a Value::Text, so a quantity whose value is not numeric keeps the core reading in every subset; (D9) numeric_value matches the number shapes against ALL significant tokens of the value (the collecting chain never truncates). Necessary conditions only: parse results are not decided.")
     chk.trusted = ["rustc MIR; bitflags-generated Extensions methods trusted by origin", "tables/gates.toml (reviewed gate sites)"]
     chk.analysed = {"facts": th, "gate_reads": len(G.gates), "wrappers": sorted(G.wrappers), "other_reads": len(G.other_reads)}
 
@@ -151,6 +151,7 @@ def run(chk: harness.Check):
     d6_inline_same_text(chk, F)
     d7_range_partition(chk, F)
     d8_advanced_numeric(chk, F)
+    d9_numeric_whole(chk, F)
 
     # ---- D3 propagation -----------------------------------------------------------------------
     allow_const = {a["function"]: a for a in tab.get("constant_extensions", [])}
@@ -240,6 +241,27 @@ def run(chk: harness.Check):
 def _short(ck):
     from inventory import short
     return short(ck)
+
+
+def d9_numeric_whole(chk, F):
+    """A quantity value is a number only if ALL of it is a number (`{1 1/2 cups}` is text when no extension splits off the unit): the token
+    sequence that numeric_value matches against the number shapes is every significant token of the value — the chain that collects it
+    only filters blanks and comments, it never truncates (take / skip / step_by / …), otherwise a longer value matches by its prefix
+    and what follows is dropped, differently under different extension sets."""
+    fs = [g for g in F.find("parser::quantity::numeric_value") if not g.is_closure()]
+    if len(fs) != 1:
+        chk.fail("anchor-missing", "numeric_value", "", "anchor-missing: parser::quantity::numeric_value not found")
+        return
+    f = fs[0]
+    R = "C02.D9-numeric-whole"
+    cols = [(b, t) for b, t in f.calls() if (callee_key(t) or "").endswith(("Iterator::collect", "Iterator>::collect", "FromIterator>::from_iter", "Extend<T>>::extend"))]
+    chk.floor(R, "token collections in numeric_value", len(cols), 1, f"{f.file}:{f.line}")
+    for b, t in cols:
+        names = sorted({n[1].rsplit("::", 1)[-1] for n in walk(resolve(f, t["args"][-1] if (callee_key(t) or "").endswith("extend") else t["args"][0])) if n[0] == "call"})
+        cut = [n for n in names if n in ("take", "take_while", "skip", "skip_while", "step_by", "nth", "map_while", "chunks", "windows", "first", "last", "get", "split_at", "split_first", "split_last")]
+        chk.expect(not cut, R, "numeric_value|all significant tokens", f.where(b),
+                   f"the tokens matched against the number shapes are cut with {cut}: a value that merely STARTS like a number would be read as that number",
+                   sample=f"{f.where(b)}: collected through {names}")
 
 
 def d8_advanced_numeric(chk, F):
